@@ -16,6 +16,44 @@ package upstream
 //@   ensures [C17:unix] (len(dialAddr) >= 1 && dialAddr[0] == '@') ==> n == "unix"
 //@   ensures [C17:tcp] !(len(dialAddr) >= 1 && dialAddr[0] == '@') ==> n == "tcp"
 
+// ---- utils.go: which address is dialled (C17) -----------------------------------------------------
+// net.SplitHostPort / net.JoinHostPort are opaque (assumed effect-free); the contracts pin down which
+// string is split, which parts are joined and which string is returned unchanged.
+//@ func trySplitHostPort(s string) (host string, port string)
+//@   inline
+//@ func tryRemovePort(s string) (h string)
+//@   props C17
+//@   ghost gh string = s
+//@   ghost ge error = nil
+//@   aftercall SplitHostPort: gh = ret0
+//@   aftercall SplitHostPort: ge = ret2
+//@   modifies nothing
+//@   callsite SplitHostPort: [C17:splits-its-argument] arg0 == s
+//@   ensures [C17:host-part-or-unchanged] (ge == nil ? h == gh : h == s)
+
+// getDialAddr: with a dial_addr override the result derives from the override only ('@name' unchanged; with a
+// port unchanged; otherwise its host joined with the default port); without one, from the URL host in the same
+// way. Whether a port is present is judged on the address that is used.
+//@ func getDialAddr(urlAddr string, dialAddr string, defaultPort string) (r string)
+//@   props C17
+//@   ghost gport string = ""
+//@   ghost ghost0 string = ""
+//@   ghost gerr error = nil
+//@   ghost gj string = ""
+//@   ghost nSplit int = 0
+//@   oncall SplitHostPort?: nSplit = nSplit + 1
+//@   aftercall SplitHostPort?: ghost0 = ret0
+//@   aftercall SplitHostPort?: gport = ret1
+//@   aftercall SplitHostPort?: gerr = ret2
+//@   aftercall JoinHostPort?: gj = ret0
+//@   modifies nothing
+//@   callsite SplitHostPort: [C17:port-judged-on-address-used] arg0 == (len(dialAddr) > 0 ? dialAddr : urlAddr)
+//@   callsite JoinHostPort: [C17:default-port-added-to-that-host] arg1 == defaultPort && (gerr == nil ? arg0 == ghost0 : arg0 == (len(dialAddr) > 0 ? dialAddr : urlAddr))
+//@   ensures [C17:unix-override-unchanged] len(dialAddr) > 0 && dialAddr[0] == '@' ==> sameSlice(r, dialAddr, 0, len(dialAddr)) && nSplit == 0
+//@   ensures [C17:with-port-unchanged] !(len(dialAddr) > 0 && dialAddr[0] == '@') && gerr == nil && len(gport) > 0 ==>
+//@             (len(dialAddr) > 0 ? sameSlice(r, dialAddr, 0, len(dialAddr)) : sameSlice(r, urlAddr, 0, len(urlAddr)))
+//@   ensures [C17:without-port-default-added] !(len(dialAddr) > 0 && dialAddr[0] == '@') && !(gerr == nil && len(gport) > 0) ==> r == gj && nSplit == 1
+
 // C16: a truncated UDP reply is retried over TCP with the same query; the caller gets the TCP outcome.
 //@ func (u *udpWithFallback) ExchangeContext(ctx context.Context, q []byte) (r *dnsmsg.Msg, err error)
 //@   props C16
